@@ -19,7 +19,7 @@ for name in names:
     pids = [p for p in ([pid] + extra.get(name, []) if name not in harmless else harmless[name]) if p in plan.PROPS]
     if not pids:
         print('%-8s (no check registered for %s yet)' % (name, pid)); continue
-    tmp = '/tmp/seedrepo'
+    tmp = os.environ.get('SEED_TMP', '/tmp/seedrepo')
     shutil.rmtree(tmp, ignore_errors=True)
     os.makedirs(tmp)
     try:
